@@ -36,6 +36,9 @@ def main(argv=None):
     ap.add_argument('--digest-only', action='store_true')
     ap.add_argument('--no-shrink', action='store_true')
     ap.add_argument('--selftest', action='store_true')
+    ap.add_argument('--seed-run', type=int,
+                    help='execute the single run with this run seed and '
+                         'print its result')
     a = ap.parse_args(argv)
 
     world.import_sc3()
@@ -44,6 +47,12 @@ def main(argv=None):
 
     if a.replay:
         return do_replay(prop, a)
+    if a.seed_run is not None:
+        st, res = R.in_child(R.exec_run(prop, a.seed_run, a.tier))
+        if isinstance(res, dict):
+            res.pop('sched', None)
+        print(st, json.dumps(res, indent=1, default=repr)[:5000])
+        return 0
     from sim import report
     return report.run_check(prop, a.tier, seed, a)
 
